@@ -31,6 +31,14 @@ CANDIDATES = [
     ("revive:Get(k) load fails || Put(k)", "sched-revive",
      "Get(k) misses and its load fails while a concurrent Put(k) sizes the same value (CAS Loading->Sized, increment); "
      "removeValueForFailedLoad stores memStateRemoved without decrementing: RevisionCacheTotalMemory stays inflated on an empty cache"),
+    ("stalefill:GetActive(k) has read the document || StoreUpdate;Invalidate(k); then Get(k)", "sched-stale-getactive",
+     "GetActive reads the document BEFORE getValue: a metadata-only channel update and its feed-side Remove(k) that fall in between "
+     "find nothing to remove, GetActive then creates the entry and fills it from the old document; later Get/Peek are served the "
+     "pre-update channels although the invalidation has completed"),
+]
+# forced schedules that the unchanged code is expected to survive (strict pass P; a failure is a VIOLATION with this key)
+SCHEDULES = [
+    ("FreshAfterInvalidate:Get(k) has read the document || StoreUpdate;Invalidate(k); then Get(k),Peek(k)", "sched-stale-get"),
 ]
 
 
@@ -43,6 +51,8 @@ def run(ctx):
     if not skip_mc:
         _mc(ctx, "MC_RevCache.cfg" if quick else "MC_RevCache_thorough.cfg")
         _mc(ctx, "MC_RevCache_env.cfg" if quick else "MC_RevCache_env_thorough.cfg")
+        _mc(ctx, "MC_RevCache_stale.cfg", guard=False)        # staleness clause, Get/Peek/Invalidate + StoreUpdate: strict FreshAfterInvalidate
+        _mc(ctx, "MC_RevCache_stale_ga.cfg", guard=False)     # ... plus GetActive: modulo the named deviation "stalefill"
         if not quick:
             _mc(ctx, "MC_RevCache_thorough3.cfg", guard=False)     # three concurrent calls (one configuration without byte limit)
             _mc(ctx, "MC_RevCache_onecv.cfg", guard=False)         # "one CV => one body": only `revive` is left
@@ -57,17 +67,21 @@ def run(ctx):
     for b in sims:                                # action mix of the simulated behaviours (SimNext: one successor per call kind)
         for st in b["steps"]:
             hist[st["op"]] = hist.get(st["op"], 0) + 1
-            if st["f"] != "ok":
+            if st["op"] != "StoreUpdate" and st["f"] != "ok":
                 hist["loader_failure"] = hist.get("loader_failure", 0) + 1
     ctx.cov["sim_call_histogram"] = hist
     log("  simulated behaviours: %d, call mix %s" % (len(sims), json.dumps(hist, sort_keys=True)))
     behs += sims
+    for b in behs:                                # the export shows the bucket at the END of the behaviour: undo the StoreUpdates
+        for st in reversed(b["steps"]):
+            if st["op"] == "StoreUpdate":
+                b["store"][st["k"]] = st["f"]
     # ---- one start of the db test binary for: sequential replay, concurrent driver, candidates (forced deviations)
     bf = os.path.join(ctx.scratch, "c16-beh.json")
     cf = os.path.join(ctx.scratch, "c16-cand-beh.json")
     write_json(bf, behs)
     write_json(cf, [F8_BEH])
-    modes = ["seq"] + [m for _, m, _ in CANDIDATES]
+    modes = ["seq"] + [m for _, m, _ in CANDIDATES] + [m for _, m in SCHEDULES]
     env = {"VERIF_BEH": bf, "VERIF_BEH_CAND": cf,
            "VERIF_C16_RUNS": 30 if quick else 300, "VERIF_C16_ROUNDS": 5 if quick else 6, "VERIF_C16_CALLS": 10 if quick else 20, "VERIF_C16_G": 4}
     if quick:
@@ -80,13 +94,16 @@ def run(ctx):
     conc(ctx, traces["conc"])                     # 3. concurrent driver
     for key, mode, what in CANDIDATES:            # 4. named deviations forced on the real code
         candidate(ctx, key, traces[mode], what)
+    for key, mode in SCHEDULES:                   # 5. forced schedules of the staleness clause
+        schedule(ctx, key, traces[mode])
 
     ctx.cov["rule"] = ("behaviours = every sequence of 3 whole calls (Get/GetActive/Put/Upsert/Remove/Peek x 2 keys x 2 contents x loader "
-                       "ok/fail) x 2 configurations [quick: a seeded third] + seeded simulations of 10 calls over 4 keys, 36 configurations, "
+                       "ok/fail, + StoreUpdate and Invalidate) x 2 configurations [quick: a seeded third] + seeded simulations of 10 calls over 4 keys, 36 configurations, "
                        "each followed by a drain (Remove of every key); non-trivial = the real cache held at least one sized value at some "
                        "point of the behaviour (so gauges and recount were compared on non-empty contents)")
     ctx.assumptions += [
-        "Fresh is demanded for keys that never received a Put/Upsert of content other than the bucket's (the writer hands over what it wrote); the bucket content of a document does not change within a behaviour, so the metadata-only channel update + feed invalidation clause (DESIGN 4.16 binding (3)) is NOT decided here",
+        "Fresh/FreshAfterInvalidate are demanded for keys that never received a Put/Upsert of content other than the bucket's at the time the call started (a writer whose Put overlaps a StoreUpdate taints the key)",
+        "staleness clause at component level: StoreUpdate = the scripted bucket changes the channels of a revision (same rev id and version); Invalidate(k) = Remove(k) as the feed issues it, per key. Which keys DocChanged/crud.go actually remove (user-xattr change: the rev-id key only; UnchangedCV: the cv key only) is not decided here (no real database in the binding)",
         "accounting clauses are judged at quiescence (sequential: after every call; concurrent: when all goroutines have returned)",
         "expected contents are what the real BypassRevisionCache loads from the same scripted backing store",
         "hook H3 is not used: concurrent runs are validated on quiescent snapshots only (pass P), conformance (pass C) on sequential runs",
@@ -228,6 +245,22 @@ def candidate(ctx, key, tr, what):
         ctx.notes.append("named deviation '%s' of specs/RevCache did not reproduce on this tree: the model is more pessimistic than the code there" % name)
     else:
         raise Inconclusive("candidate %s: pass P stopped at line %s\n%s" % (name, vp.line, vp.out[-1200:]))
+
+
+def schedule(ctx, key, tr):
+    rows = read_ndjson(tr)
+    n = sum(1 for r in rows if r["a"] == "Reset")
+    ctx.cov["evaluations"] += n
+    vp = validate(ctx, SPEC, "Trace_RevCache", "Trace_RevCache_PS.cfg", tr, timeout=900)
+    if vp.inv:
+        idx, reset, part = _beh_at(rows, vp.line)
+        _violation(ctx, "forced schedule %s" % key.split(":")[0], vp, rows,
+                   key="%s [%s, %s]" % (key, reset.get("impl") if reset else "?", vp.inv))
+    elif not vp.accepted:
+        raise Inconclusive("schedule %s: pass P stopped at line %s\n%s" % (key, vp.line, vp.out[-1200:]))
+    else:
+        ctx.cov["traces_validated_against_impl"] += n
+        ctx.cov.setdefault("forced_schedules", {})[key] = "%d runs (key kinds x LRU/orchestrator) accepted by strict pass P" % n
 
 
 def _strip(r):
